@@ -1,12 +1,44 @@
 import Sqljson.Lemmas.Layout
 /-!
-# What the lexer accepts, exactly: lemma layer of `Props/C04b`
+# What the lexer accepts, exactly — lemma layer of `Props/C04b`
 
-Converse of `Lemmas/Layout` §4 (every permitted spelling lexes to the intended token): for ALL
-inputs — the unread source is an arbitrary `List Src`, NUL runes and undecodable bytes included, and
-the oracles are arbitrary — each scanner of `Model/Lex.lean` returns a token other than the error
+`Lemmas/Layout` §4 proves one direction at the token level: every *permitted* spelling lexes to the
+intended token.  This file proves the converse, for ALL inputs: the unread source is an arbitrary
+`List Src` (NUL runes and undecodable bytes included), the lexer state and the oracles are arbitrary
+unless a hypothesis is named.  Each scanner of `Model/Lex.lean` returns a token other than the error
 token IF AND ONLY IF the source begins with a text of a small declarative grammar followed by a
-permitted rune; otherwise it returns `stopTok` with an error on record.  (placeholder header)
+permitted rune — and then the result is given in closed form —; in every other case it returns
+`stopTok` with an error on record.  So every malformed token form is rejected by theorem.
+
+Contents.
+
+* **Common vocabulary.** `srcChar`, `withRest`, `peekR`, `afterR`, `chs`: the stream "look-ahead rune
+  `peekR X`, state `afterR s X`" stands before the source `X`.  `parse_err_of_lex_error`,
+  `parse_err_of_first_token`: an error recorded by the first call of `Lex` rejects the input
+  (by `Layout.allEM`: no parser function clears the error flag).
+* **Part A, `LexReject.Misc`.**  Comments: `splitComment`, `commentLoop_spec` (the loop of `scanComment`
+  returns the rune after the first `*/` iff the body before it is free of NUL / bad bytes; otherwise
+  `stopTok` + error).  Separators over arbitrary tails: `lexFrom_skip_sep`, `parse_err_after_sep`.
+  First characters: `StartsToken`, `lexFrom_dispatch`, `lexFrom_unk_iff`, the operator table
+  `scanOperator_*`.  The parser: `parse_err_of_unk_first` (a rune the grammar does not mention is the
+  token `$unk`, not a lexer error; the parser has no rule for it).  General position: `lexIter`,
+  the invariant calculus `IM` / `allIM` (a generalisation of `Layout.EM` to any invariant of the lexer
+  state kept by `Lex` and `setErr`), `parse_ok_lexIter_no_error` (an accepted input has no lexing error
+  anywhere in its token stream), `Standing`, `parse_err_of_error_at`, `parse_err_after_sep_at`.
+* **Part B, `LexReject.Str`.**  Escapes, string literals, `$"…"`, bare identifiers.  The grammar is
+  `Layout.SpellsEsc` / `SpellsChar` / `SpellsStr` (they turn out to be complete).  Per function a
+  soundness lemma `…_ok` and a completeness lemma `…_cases`; `scanString_iff`, `scanIdent_iff`;
+  the rejection normal form `not_closed_iff` (`Stuck`), `NoEsc` lemmas for every malformed escape form.
+* **Part C, `LexReject.Num`.**  Numbers, in two layers.  Layer 1 (`scanNumber_ref`, `scanNumber_dot_ref`):
+  `scanNumber` is the closed-form *reference reading* `numRef` / `dotRef` of the source (maximal runs
+  of digits and underscores cut by `takeRun`, then the checks) — `digitsLoop_run` is `digits` on an
+  arbitrary source.  Layer 2 (`numRef_some`, `dotRef_some`): the reference reading accepts exactly the
+  grammar `NumForm` with the follower rule `Follower`, or a `LooseRadix` text before `.`; the separator
+  check `invalidSep` is analysed by `sepLoop_run` / `sepLoop_group` ("single underscores between
+  digits" = `Digs`).  `scanNumber_accepts_iff`, `scanNumber_rejects_iff`, rejection lemmas for every
+  continuation (`reject_*`), the `Lex` level (`lexFrom_digit`, `lexFrom_dot_digit`).
+* **Glue.** `parse_err_bad_number`, `parse_err_bad_string_sep`, … : the malformed token stands after
+  any separator, at the first or at any later token start.
 -/
 
 namespace Sqljson
@@ -1823,344 +1855,6 @@ theorem parse_err_of_private_char_at (bytes : List UInt8) (k : Nat) {sep : List 
   rfl
 
 end
-
-/-! ## §9 `$unk` anywhere in the token stream: the parser never shifts it
-
-A Hoare calculus over the parser monad.  `UJ s`: the lexer state is an iterate `lexIter o k s0` and none of the
-first `k` tokens is `$unk` — except possibly the last one, which then still sits in the look-ahead `s.la` — or an
-error is on record.  `Lex` (through `peek`) keeps `UJ`; `consume` keeps it provided the look-ahead is not `$unk`,
-which is what every call of `consume` in the parser is guarded by: the token examined before it (`Link t`: if the
-examined token `t` is not `$unk`, neither is the look-ahead). -/
-
-section unk
-variable (o : Oracles) (s0 : LState)
-
-/-- none of the first `k` tokens is `$unk` -/
-def Clean (k : Nat) : Prop := ∀ j, j < k → (Lex.lex o (lexIter o j s0)).1 ≠ .unk
-
-/-- the look-ahead is not `$unk` -/
-def NotUnk (s : PS) : Prop := ∀ x, s.la ≠ some (.unk, x)
-
-/-- the examined token `t` is the look-ahead as far as `$unk` is concerned -/
-def Link (t : Tok) (s : PS) : Prop := t ≠ .unk → NotUnk s
-
-/-- the invariant of the parser state (see the section header) -/
-def UJ (s : PS) : Prop :=
-  s.lx.err = true ∨ ∃ k, s.lx = lexIter o k s0 ∧
-    (Clean o s0 k ∨ ∃ k', k = k' + 1 ∧ Clean o s0 k' ∧ ∃ x, s.la = some (.unk, x))
-
-/-- Hoare triple over `UJ`: from a state satisfying `UJ` and `Pre`, a successful run of `m` ends in a state
-    satisfying `UJ` and `Q` -/
-def HT (Pre : PS → Prop) {α : Type} (m : P α) (Q : α → PS → Prop) : Prop :=
-  ∀ s v s1, m s = .ok v s1 → UJ o s0 s → Pre s → UJ o s0 s1 ∧ Q v s1
-
-/-- no condition -/
-abbrev TT0 : PS → Prop := fun _ => True
-/-- no condition on the result -/
-abbrev QT {α : Type} : α → PS → Prop := fun _ _ => True
-
-variable {o s0}
-
-theorem ht_pure {α : Type} {Pre : PS → Prop} {R : α → PS → Prop} (a : α) (h : ∀ s, Pre s → R a s) :
-    HT o s0 Pre (pure a : P α) R := by
-  intro s v s1 hm hj hp
-  rw [pure_apply] at hm
-  injection hm with h1 h2
-  subst h1; subst h2
-  exact ⟨hj, h s hp⟩
-
-theorem ht_syn {α : Type} {Pre : PS → Prop} {R : α → PS → Prop} : HT o s0 Pre (syn : P α) R := by
-  intro s v s1 hm; simp [syn] at hm
-theorem ht_panic {α : Type} {Pre : PS → Prop} {R : α → PS → Prop} : HT o s0 Pre (Parse.panic : P α) R := by
-  intro s v s1 hm; simp [Parse.panic] at hm
-theorem ht_outOfFuel {α : Type} {Pre : PS → Prop} {R : α → PS → Prop} : HT o s0 Pre (outOfFuel : P α) R := by
-  intro s v s1 hm; simp [outOfFuel] at hm
-
-theorem ht_bind {α β : Type} {Pre : PS → Prop} {Q : α → PS → Prop} {R : β → PS → Prop} {m : P α} {f : α → P β}
-    (hm : HT o s0 Pre m Q) (hf : ∀ a, HT o s0 (Q a) (f a) R) : HT o s0 Pre (m >>= f) R := by
-  intro s v s1 h hj hp
-  rw [bind_apply] at h
-  cases hms : m s with
-  | ok a s' =>
-    rw [hms] at h
-    obtain ⟨hj', hq⟩ := hm s a s' hms hj hp
-    exact hf a s' v s1 h hj' hq
-  | syn => rw [hms] at h; simp at h
-  | panic => rw [hms] at h; simp at h
-  | fuel => rw [hms] at h; simp at h
-
-theorem ht_pre {α : Type} {Pre : PS → Prop} {Q : α → PS → Prop} {m : P α} (h : HT o s0 TT0 m Q) :
-    HT o s0 Pre m Q := fun s v s1 hm hj _ => h s v s1 hm hj trivial
-
-theorem ht_post {α : Type} {Pre : PS → Prop} {Q : α → PS → Prop} {m : P α} (h : HT o s0 Pre m Q) :
-    HT o s0 Pre m QT := fun s v s1 hm hj hp => ⟨(h s v s1 hm hj hp).1, trivial⟩
-
-/-- shifting the look-ahead is allowed when it is not `$unk` -/
-theorem ht_consume {Pre : PS → Prop} (hp : ∀ s, Pre s → NotUnk s) : HT o s0 Pre consume QT := by
-  intro s v s1 hm hj hpre
-  simp only [consume] at hm
-  injection hm with _ h2
-  subst h2
-  refine ⟨?_, trivial⟩
-  rcases hj with he | ⟨k, hk, hc | ⟨k', _, _, x, hx⟩⟩
-  · exact Or.inl he
-  · exact Or.inr ⟨k, hk, Or.inl hc⟩
-  · exact absurd hx (hp s hpre x)
-
-theorem ht_recordError {Pre : PS → Prop} : HT o s0 Pre recordError QT := by
-  intro s v s1 hm _ _
-  simp only [recordError] at hm
-  injection hm with _ h2
-  subst h2
-  exact ⟨Or.inl rfl, trivial⟩
-
-/-- `peek`: the token it returns is the look-ahead as far as `$unk` is concerned -/
-theorem ht_peek {Pre : PS → Prop} : HT o s0 Pre (peek o) (fun t s => Link t.1 s) := by
-  intro s t s' hp hj _
-  unfold peek at hp
-  cases hla : s.la with
-  | some t' =>
-    simp only [hla] at hp
-    injection hp with h1 h2
-    subst h1; subst h2
-    refine ⟨hj, ?_⟩
-    intro hne x hx
-    rw [hla] at hx
-    injection hx with hx
-    rw [hx] at hne
-    exact hne rfl
-  | none =>
-    simp only [hla] at hp
-    by_cases hoof : (Lex.lex o s.lx).2.2.oof = true
-    · simp [hoof] at hp
-    · simp only [hoof, if_false, Bool.false_eq_true] at hp
-      -- the invariant after this call of `Lex`, for either way of storing the token
-      have hstep : ∀ la' : Option (Tok × List Char),
-          (la' = none ∨ ∃ x, la' = some ((Lex.lex o s.lx).1, x)) →
-          ((Lex.lex o s.lx).1 = .unk → la' ≠ none) →
-          UJ o s0 { lx := (Lex.lex o s.lx).2.2, la := la' } := by
-        intro la' hla' hunk
-        rcases hj with he | ⟨k, hk, hc | ⟨k', _, _, x, hx⟩⟩
-        · exact Or.inl (lex_err_mono o s.lx he)
-        · refine Or.inr ⟨k + 1, by rw [hk]; rfl, ?_⟩
-          by_cases hu : (Lex.lex o s.lx).1 = .unk
-          · right
-            refine ⟨k, rfl, hc, ?_⟩
-            rcases hla' with h | ⟨x, h⟩
-            · exact absurd h (hunk hu)
-            · exact ⟨x, by rw [h, hu]⟩
-          · left
-            intro j hj'
-            by_cases hjk : j < k
-            · exact hc j hjk
-            · have : j = k := by omega
-              rw [this, ← hk]; exact hu
-        · rw [hla] at hx; simp at hx
-      by_cases hs : (Lex.lex o s.lx).1 = Tok.stop
-      · simp only [hs, if_true] at hp
-        injection hp with h1 h2
-        subst h1; subst h2
-        refine ⟨?_, ?_⟩
-        · have := hstep none (Or.inl rfl) (by rw [hs]; simp)
-          rw [hla]; exact this
-        · intro _ x hx
-          simp only [hla] at hx
-          simp at hx
-      · simp only [hs, if_false] at hp
-        injection hp with h1 h2
-        subst h1; subst h2
-        refine ⟨hstep _ (Or.inr ⟨_, rfl⟩) (by simp), ?_⟩
-        intro hne x hx
-        simp only [Option.some.injEq, Prod.mk.injEq] at hx
-        exact hne hx.1
-
-/-- prove that the token of a guarded branch is not `$unk`, from the hypotheses of the branch -/
-syntax "hu_side" : tactic
-macro_rules | `(tactic| hu_side) => `(tactic| first
-  | decide
-  | assumption
-  | (intro hu; subst hu; contradiction)
-  | (intro hu; subst hu; simp_all [isAccessorStart, compOp, addOp, mulOp, methodOf, precisionOp, isPlainKeyName]; done))
-
-/-- one step of the proof of a triple -/
-syntax "ht_more" : tactic
-macro_rules | `(tactic| ht_more) => `(tactic| exact ht_syn)
-macro_rules | `(tactic| ht_more) => `(tactic| exact ht_panic)
-macro_rules | `(tactic| ht_more) => `(tactic| exact ht_outOfFuel)
-macro_rules | `(tactic| ht_more) => `(tactic| exact ht_peek)
-macro_rules | `(tactic| ht_more) => `(tactic| exact ht_recordError)
-macro_rules | `(tactic| ht_more) => `(tactic| exact ht_consume (fun _ h => h (by hu_side)))
-macro_rules | `(tactic| ht_more) => `(tactic| exact ht_pure _ (fun _ _ => trivial))
-macro_rules | `(tactic| ht_more) => `(tactic| exact ht_pure _ (fun _ h => h))
-macro_rules | `(tactic| ht_more) => `(tactic| exact (ht_pure _ (fun _ _ => trivial) : HT _ _ _ (pure _) QT))
-
-macro "ht" : tactic => `(tactic| repeat' (first | ht_more | apply ht_bind | intro _ | split))
-
-theorem ht_expect {Pre : PS → Prop} (t : Tok) (ht : t ≠ .unk) : HT o s0 Pre (expect o t) QT := by
-  unfold expect
-  apply ht_bind ht_peek
-  intro a
-  obtain ⟨k, x⟩ := a
-  simp only []
-  split
-  · rename_i h
-    exact ht_consume (fun _ hl => hl (by rw [h]; exact ht))
-  · exact ht_syn
-
-theorem ht_astNewInteger {Pre : PS → Prop} (l : List Char) : HT o s0 Pre (astNewInteger l) QT := by
-  unfold astNewInteger; ht
-theorem ht_astNewNumeric {Pre : PS → Prop} (l : List Char) : HT o s0 Pre (astNewNumeric l) QT := by
-  unfold astNewNumeric; ht
-theorem ht_newInteger {Pre : PS → Prop} (l : List Char) : HT o s0 Pre (newInteger l) QT := by
-  unfold newInteger; ht
-theorem ht_newNumeric {Pre : PS → Prop} (l : List Char) : HT o s0 Pre (newNumeric l) QT := by
-  unfold newNumeric; ht
-theorem ht_newUnaryOrNumber {Pre : PS → Prop} (op : UnOp) (v : EV) : HT o s0 Pre (newUnaryOrNumber op v) QT := by
-  unfold newUnaryOrNumber
-  repeat' (first | ht_more | exact ht_astNewInteger _ | exact ht_astNewNumeric _ | split)
-theorem ht_mkRegex {Pre : PS → Prop} (v : EV) (p f : List Char) : HT o s0 Pre (mkRegex o v p f) QT := by
-  unfold mkRegex; ht
-theorem ht_anyLevelOf {Pre : PS → Prop} (l : List Char) : HT o s0 Pre (anyLevelOf l) QT := by
-  unfold anyLevelOf; ht
-
-macro_rules | `(tactic| ht_more) => `(tactic| exact ht_expect _ (by decide))
-macro_rules | `(tactic| ht_more) => `(tactic| exact ht_newInteger _)
-macro_rules | `(tactic| ht_more) => `(tactic| exact ht_newNumeric _)
-macro_rules | `(tactic| ht_more) => `(tactic| exact ht_newUnaryOrNumber _ _)
-macro_rules | `(tactic| ht_more) => `(tactic| exact ht_mkRegex _ _ _)
-macro_rules | `(tactic| ht_more) => `(tactic| exact ht_anyLevelOf _)
-
-theorem ht_anyLevel {Pre : PS → Prop} : HT o s0 Pre (anyLevel o) QT := by unfold anyLevel; ht
-
-/-- `csv_elem`, handed an examined token that is not `$unk` -/
-theorem ht_csvElem (t : Tok) (x : List Char) (hne : t ≠ .unk) : HT o s0 (Link t) (csvElem o (t, x)) QT := by
-  unfold csvElem; ht
-
-macro_rules | `(tactic| ht_more) => `(tactic| exact ht_anyLevel)
-macro_rules | `(tactic| ht_more) => `(tactic| exact ht_csvElem _ _ (by hu_side))
-
-/-- what is known about the token a complete atom hands back -/
-def AtomPost : AtomR → PS → Prop
-  | .pred _, _ => True
-  | .expr _ t, s => Link t s
-
-variable (o s0)
-
-/-- the triples of the 16 functions of the parser's mutual block, at fuel `f` -/
-structure AllHT (f : Nat) : Prop where
-  unaryT : ∀ t x, HT o s0 (Link t) (parseUnaryT o f (t, x)) QT
-  unary : HT o s0 TT0 (parseUnary o f) QT
-  scalar : ∀ t x, HT o s0 (Link t) (parseScalar o f (t, x)) QT
-  accLoop : ∀ head ops, HT o s0 TT0 (accessorLoop o f head ops) QT
-  paren : ∀ ctx, HT o s0 TT0 (parenTail o f ctx) QT
-  atom : ∀ ctx, HT o s0 TT0 (parseAtom o f ctx) AtomPost
-  exists_ : HT o s0 TT0 (existsTail o f) QT
-  exprT : ∀ ctx v, HT o s0 TT0 (exprTail o f ctx v) AtomPost
-  arith : ∀ v, HT o s0 TT0 (arithLoop o f v) (fun p s => Link p.2 s)
-  mul : ∀ v, HT o s0 TT0 (mulLoop o f v) QT
-  pred : ∀ v, HT o s0 TT0 (predLoop o f v) (fun p s => Link p.2 s)
-  or_ : ∀ v, HT o s0 TT0 (orLoop o f v) QT
-  accOp : ∀ t, t ≠ .unk → HT o s0 (Link t) (accessorOp o f t) QT
-  index : ∀ t x acc, HT o s0 (Link t) (indexList o f (t, x) acc) QT
-  csv : HT o s0 TT0 (csvList o f) QT
-  csvM : ∀ acc, HT o s0 TT0 (csvMore o f acc) QT
-
-theorem allHT_zero : AllHT o s0 0 := by
-  constructor
-  all_goals intros
-  all_goals first
-    | (simp only [parseUnaryT, parseUnary, parseScalar, accessorLoop, parenTail, parseAtom, existsTail, exprTail,
-        arithLoop, mulLoop, predLoop, orLoop, accessorOp, indexList, csvList, csvMore]; exact ht_outOfFuel)
-
-variable {o s0}
-
-section step
-variable {f : Nat} (ih : AllHT o s0 f)
-include ih
-
-/-- the calls of the functions at fuel `f`, in whatever precondition -/
-syntax "ht_ih" : tactic
-macro_rules | `(tactic| ht_ih) => `(tactic| first
-  | exact AllHT.unaryT (by assumption) _ _
-  | exact AllHT.scalar (by assumption) _ _
-  | exact AllHT.index (by assumption) _ _ _
-  | exact AllHT.accOp (by assumption) _ (by hu_side)
-  | exact ht_pre (AllHT.unary (by assumption))
-  | exact ht_pre (AllHT.accLoop (by assumption) _ _)
-  | exact ht_pre (AllHT.paren (by assumption) _)
-  | exact ht_pre (AllHT.atom (by assumption) _)
-  | exact ht_pre (AllHT.exists_ (by assumption))
-  | exact ht_pre (AllHT.exprT (by assumption) _ _)
-  | exact ht_pre (AllHT.arith (by assumption) _)
-  | exact ht_pre (AllHT.mul (by assumption) _)
-  | exact ht_pre (AllHT.pred (by assumption) _)
-  | exact ht_pre (AllHT.or_ (by assumption) _)
-  | exact ht_pre (AllHT.csv (by assumption))
-  | exact ht_pre (AllHT.csvM (by assumption) _))
-
-macro "hti" : tactic => `(tactic| repeat' (first | ht_more | ht_ih | apply ht_bind | intro _ | split))
-
-theorem htstep_unaryT (t : Tok) (x : List Char) : HT o s0 (Link t) (parseUnaryT o (f + 1) (t, x)) QT := by
-  rw [parseUnaryT]; hti
-theorem htstep_unary : HT o s0 TT0 (parseUnary o (f + 1)) QT := by rw [parseUnary]; hti
-theorem htstep_scalar (t : Tok) (x : List Char) : HT o s0 (Link t) (parseScalar o (f + 1) (t, x)) QT := by
-  unfold parseScalar
-  cases t <;> hti
-theorem htstep_accLoop (head : EV) (ops : List Node) : HT o s0 TT0 (accessorLoop o (f + 1) head ops) QT := by
-  rw [accessorLoop]; hti
-theorem htstep_paren (ctx : Ctx) : HT o s0 TT0 (parenTail o (f + 1) ctx) QT := by
-  unfold parenTail; hti
-theorem htstep_atom (ctx : Ctx) : HT o s0 TT0 (parseAtom o (f + 1) ctx) AtomPost := by
-  unfold parseAtom; hti
-theorem htstep_exists : HT o s0 TT0 (existsTail o (f + 1)) QT := by unfold existsTail; hti
-theorem htstep_exprT (ctx : Ctx) (v : EV) : HT o s0 TT0 (exprTail o (f + 1) ctx v) AtomPost := by
-  unfold exprTail; hti
-theorem htstep_arith (v : EV) : HT o s0 TT0 (arithLoop o (f + 1) v) (fun p s => Link p.2 s) := by
-  unfold arithLoop; hti
-theorem htstep_mul (v : EV) : HT o s0 TT0 (mulLoop o (f + 1) v) QT := by unfold mulLoop; hti
-theorem htstep_pred (v : EV) : HT o s0 TT0 (predLoop o (f + 1) v) (fun p s => Link p.2 s) := by
-  unfold predLoop; hti
-theorem htstep_or (v : EV) : HT o s0 TT0 (orLoop o (f + 1) v) QT := by unfold orLoop; hti
-theorem htstep_accOp (t : Tok) (hne : t ≠ .unk) : HT o s0 (Link t) (accessorOp o (f + 1) t) QT := by
-  unfold accessorOp; hti
-theorem htstep_index (t : Tok) (x : List Char) (acc : List Node) :
-    HT o s0 (Link t) (indexList o (f + 1) (t, x) acc) QT := by
-  unfold indexList; hti
-theorem htstep_csv : HT o s0 TT0 (csvList o (f + 1)) QT := by unfold csvList; hti
-theorem htstep_csvM (acc : List Node) : HT o s0 TT0 (csvMore o (f + 1) acc) QT := by unfold csvMore; hti
-
-end step
-
-variable (o s0)
-
-theorem allHT : ∀ f, AllHT o s0 f
-  | 0 => allHT_zero o s0
-  | f + 1 =>
-    have ih := allHT f
-    { unaryT := htstep_unaryT ih
-      unary := htstep_unary ih
-      scalar := htstep_scalar ih
-      accLoop := htstep_accLoop ih
-      paren := htstep_paren ih
-      atom := htstep_atom ih
-      exists_ := htstep_exists ih
-      exprT := htstep_exprT ih
-      arith := htstep_arith ih
-      mul := htstep_mul ih
-      pred := htstep_pred ih
-      or_ := htstep_or ih
-      accOp := htstep_accOp ih
-      index := htstep_index ih
-      csv := htstep_csv ih
-      csvM := htstep_csvM ih }
-
-/-- `mode expr_or_predicate` keeps the invariant -/
-theorem ht_parseBody (f : Nat) : HT o s0 TT0 (parseBody o f) QT := by
-  have h := allHT o s0 f
-  unfold parseBody
-  repeat' (first | ht_more | exact ht_pre (h.atom _) | exact ht_pre (h.pred _) | apply ht_bind | intro _ | split)
-
-end unk
 
 end Misc
 end LexReject
@@ -6822,6 +6516,129 @@ theorem parse_err_bad_string_at (hq : o.xidStart '"' = false) (bytes : List UInt
   exact (Str.scanString_bad .string _ hbad).2.2
 
 end
+
+end LexReject
+end Sqljson
+
+/-! # After the early return: an integer token that `strconv.ParseInt` refuses -/
+namespace Sqljson
+namespace LexReject
+open Parse Lex ParseLemmas RoundTrip Layout
+
+/-- `m`, started in a state satisfying `pre`, ends (if it ends) with an error on record -/
+def ErrAfter {α : Type} (pre : PS → Prop) (m : P α) : Prop :=
+  ∀ s v s1, pre s → m s = .ok v s1 → s1.lx.err = true
+
+theorem errAfter_bind_left {α β : Type} {pre : PS → Prop} {m : P α} {f : α → P β}
+    (hm : ErrAfter pre m) (hf : ∀ a, EM (f a)) : ErrAfter pre (m >>= f) := by
+  intro s v s1 hp h
+  rw [bind_apply] at h
+  cases hms : m s with
+  | ok a s' =>
+    rw [hms] at h
+    exact (hf a).mono s' v s1 h (hm s a s' hp hms)
+  | syn => rw [hms] at h; simp at h
+  | panic => rw [hms] at h; simp at h
+  | fuel => rw [hms] at h; simp at h
+
+section
+variable (o : Oracles)
+
+theorem errAfter_newInteger (t : List Char) (ht : parseInt0 t = none) : ErrAfter (fun _ => True) (newInteger t) := by
+  intro s v s1 _ h
+  unfold newInteger at h
+  rw [ht] at h
+  simp only [bind_apply, recordError, pure_apply] at h
+  injection h with _ h2
+  rw [← h2]; rfl
+
+/-- the parser on an integer token whose text `strconv.ParseInt(·, 0, 64)` refuses, where an operand may
+    start: `newInteger` records "integer literal … is out of range" -/
+theorem errAfter_parseAtom_int (n : Nat) (t : List Char) (ht : parseInt0 t = none) :
+    ErrAfter (fun s => s.la = some (.int, t)) (parseAtom o (n + 3) .top) := by
+  have hscalar : ErrAfter (fun _ => True) (parseScalar o (n + 1) (.int, t)) := by
+    rw [parseScalar]
+    intro s v s1 _ h
+    rw [bind_apply] at h
+    simp only [consume] at h
+    have hrest : ErrAfter (fun _ => True) (newInteger t >>= fun h => accessorLoop o n h []) :=
+      errAfter_bind_left (errAfter_newInteger t ht) (fun a => (allEM o n).accLoop a [])
+    exact hrest _ v s1 trivial h
+  intro s v s1 hla h
+  rw [parseAtom, bind_apply] at h
+  have hpk : peek o s = .ok (.int, t) s := by unfold peek; rw [hla]
+  rw [hpk] at h
+  simp only [show (Tok.int = Tok.not) = False from by simp, show (Tok.int = Tok.exists) = False from by simp,
+    show (Tok.int = Tok.lparen) = False from by simp, show (Tok.int = Tok.stop) = False from by simp,
+    if_false] at h
+  have hun : parseUnaryT o (n + 2) (.int, t) = parseScalar o (n + 1) (.int, t) := by
+    rw [parseUnaryT]
+    simp
+  rw [hun] at h
+  exact (errAfter_bind_left hscalar (fun a => (allEM o (n + 2)).exprT .top a)) s v s1 trivial h
+
+/-- **if the first token is an integer literal that `strconv.ParseInt(text, 0, 64)` refuses, the input
+    is rejected** (this is what happens after the early return of `scanNumber`: `0b2.`, `0x1_.`) -/
+theorem parse_err_of_refused_int_first (bytes : List UInt8) (t : List Char) (lx' : LState)
+    (hlex : Lex.lex o (LState.init bytes) = (.int, t, lx')) (ht : parseInt0 t = none) : parse o bytes = .err := by
+  have hnp := ParseLemmas.parse_never_panics o bytes
+  cases hr : Parse.run o bytes with
+  | ok r s =>
+    refine parse_err_of_error_recorded o bytes r s hr ?_
+    unfold Parse.run parseTop at hr
+    rw [parseBody_split, bind_apply, bind_apply] at hr
+    have hpk : peek o { lx := LState.init bytes, la := none } =
+        (if lx'.oof then .fuel else .ok (.int, t) { lx := lx', la := some (.int, t) }) := by
+      unfold peek
+      simp only [hlex]
+      simp
+    rw [hpk] at hr
+    by_cases hoof : lx'.oof = true
+    · simp [hoof] at hr
+    · simp only [hoof, Bool.false_eq_true, if_false] at hr
+      have hfuel : fuelFor bytes = (16 * bytes.length + 61) + 3 := by unfold fuelFor; omega
+      have hbody : ErrAfter (fun s => s.la = some (.int, t)) (bodyAfterPeek o (fuelFor bytes) (.int, t)) := by
+        unfold bodyAfterPeek
+        simp only [show (Tok.int = Tok.strict) = False from by simp, show (Tok.int = Tok.lax) = False from by simp,
+          if_false]
+        intro s v s1 hla h
+        rw [bind_apply, pure_apply] at h
+        rw [hfuel] at h
+        refine (errAfter_bind_left (errAfter_parseAtom_int o _ t ht) (fun a => ?_)) s v s1 hla h
+        cases a with
+        | expr v _ => exact em_pure _
+        | pred v0 =>
+          simp only
+          exact em_bind ((allEM o _).pred v0) (fun _ => em_pure _)
+      exact (errAfter_bind_left hbody (fun p => em_finish o p.1 p.2.1 p.2.2)) _ r s rfl hr
+  | syn => unfold parse; rw [hr]
+  | panic => unfold parse at hnp; rw [hr] at hnp; simp at hnp
+  | fuel => unfold parse; rw [hr]
+
+end
+
+end LexReject
+end Sqljson
+
+namespace Sqljson
+namespace LexReject
+open Parse Lex ParseLemmas RoundTrip Layout
+
+/-- a text `0…` whose reference reading is an integer token that `strconv.ParseInt` refuses (the early
+    return of `scanNumber` before `.` lets such texts through the lexer): rejected by the parser -/
+theorem parse_err_loose_radix_first (o : Oracles) (hx0 : o.xidStart '0' = false) (l t : List Char) (R : List Src)
+    (href : Num.numRef o '0' (chs l) = some (.int, t, R)) (ht : parseInt0 t = none) :
+    parse o (utf8 ('0' :: l)) = .err := by
+  have hdec : decodeAll (utf8 ('0' :: l)) = .ch '0' :: chs l := by rw [decodeAll_utf8]; rfl
+  have hag := Num.scanNumber_ref o '0' (by decide) (withRest (LState.init (utf8 ('0' :: l))) (chs l))
+  rw [withRest_rest, href] at hag
+  have hag' : scanNumber o '0' false [] (withRest (LState.init (utf8 ('0' :: l))) (chs l))
+      = ⟨.int, t, peekR R, afterR (withRest (LState.init (utf8 ('0' :: l))) (chs l)) R⟩ := hag
+  obtain ⟨lx', hlex⟩ : ∃ lx', Lex.lex o (LState.init (utf8 ('0' :: l))) = (.int, t, lx') := by
+    rw [lex_init, hdec, Num.peekR_cons_ch '0' _ (by decide), afterR_cons_ch _ '0' _ (by decide)]
+    simp only [Num.lexFrom_digit o '0' (by decide) hx0, hag']
+    exact ⟨_, rfl⟩
+  exact parse_err_of_refused_int_first o _ t lx' hlex ht
 
 end LexReject
 end Sqljson
